@@ -5,9 +5,12 @@ package scheduler
 
 import (
 	"container/heap"
+	"time"
 
 	remoteexecution "github.com/bazelbuild/remote-apis/build/bazel/remote/execution/v2"
 	rt "github.com/buildbarn/bb-remote-execution/internal/verifrt"
+	"github.com/buildbarn/bb-remote-execution/pkg/scheduler/platform"
+	"github.com/buildbarn/bb-storage/pkg/digest"
 	scheduler_invocation "github.com/buildbarn/bb-remote-execution/pkg/scheduler/invocation"
 )
 
@@ -247,6 +250,39 @@ func (r *vsRig) walk() {
 		}
 	}
 
+	// every attached client has seen the task's current stage (every stage change wakes the waiters)
+	for _, s := range r.streams {
+		if s.task != nil && !s.returned && s.ctx.err == nil && s.msgs > 0 && s.task.executeResponse == nil {
+			want := 1
+			if s.task.currentWorker != nil {
+				want = 2
+			}
+			rt.Assert(s.stage == want, "at quiescence every attached client has been told the task's current stage")
+		}
+	}
+
+	// a worker-created queue that lost its workers goes exactly PlatformQueueWithNoWorkersTimeout
+	// after the moment its last worker was due for removal (C06)
+	for _, scq := range bq.sizeClassQueues {
+		if !scq.mayBeRemoved || len(scq.workers) > 0 || !scq.cleanupKey.isActive() {
+			continue
+		}
+		var last time.Time
+		known := false
+		for _, w := range r.workers {
+			if w.everReturned && !w.inFlight && w.sizeClass == scq.sizeClass && w.prefix == scq.platformQueue.platformKey.GetInstanceNamePrefix().String() && r.platformOf(w) == scq.platformQueue.platformKey.GetPlatformString() {
+				due := w.lastReturn.Add(vsWorkerTimeout)
+				if !known || due.After(last) {
+					last, known = due, true
+				}
+			}
+		}
+		if known {
+			rt.Assert(bq.cleanupQueue.heap[scq.cleanupKey-1].timestamp.Equal(last.Add(vsQueueTimeout)), "a worker-created queue is removed exactly the queue timeout after its last worker was due for removal")
+			rt.Cover("queue:removal-scheduled")
+		}
+	}
+
 	// every attached client has been told about a completed task (C02)
 	for _, s := range r.streams {
 		if s.task != nil && s.task.executeResponse != nil && s.ctx.err == nil && s.msgs > 0 {
@@ -294,4 +330,17 @@ func (r *vsRig) scqOf(w *vsWorker) *sizeClassQueue {
 		}
 	}
 	return nil
+}
+
+// platformOf returns the platform string the scheduler derives for worker w.
+func (r *vsRig) platformOf(w *vsWorker) string {
+	inp, err := digest.NewInstanceName(w.prefix)
+	if err != nil {
+		return "?"
+	}
+	k, err := platform.NewKey(inp, w.platform)
+	if err != nil {
+		return "?"
+	}
+	return k.GetPlatformString()
 }
